@@ -77,7 +77,7 @@ def check(P, cases, wd, label, res, pid, args=("-j1",), env=None, which="final",
     cfg = os.path.join(d, "A.cfg")
     with open(cfg, "w") as f:
         f.write("SPECIFICATION Spec\nINVARIANT %s\nVIEW View\nCHECK_DEADLOCK FALSE\n" % " ".join(invariants))
-    r = tlc.run_tlc(os.path.join(SPEC, "Ram.tla"), cfg, d, lib=d, workers=workers, timeout=600)
+    r = tlc.run_tlc(os.path.join(SPEC, "Ram.tla"), cfg, d, lib=d, workers=workers, timeout=1800)
     st = {"status": "ok", "states": r["distinct"]}
     if r["violated"]:
         path = os.path.join(d, "tlc.out"); open(path, "w").write(r["out"])
@@ -107,7 +107,7 @@ def check(P, cases, wd, label, res, pid, args=("-j1",), env=None, which="final",
             cfg = os.path.join(dt, "T.cfg")
             with open(cfg, "w") as f:
                 f.write("SPECIFICATION TSpec\nINVARIANT TraceInvariants\nCHECK_DEADLOCK FALSE\n")
-            r = tlc.run_tlc(os.path.join(SPEC, "RamTrace.tla"), cfg, dt, lib=dt, workers=1, timeout=600)
+            r = tlc.run_tlc(os.path.join(SPEC, "RamTrace.tla"), cfg, dt, lib=dt, workers=1, timeout=1800)
             acc = set()
             for line in r["out"].splitlines():
                 if line.startswith('<<"ACCEPT"'):
@@ -170,7 +170,7 @@ def check_compiled(P, cases, wd, label, res, pid, n_traces=4, rng=None, tag="com
     cfg = os.path.join(dt, "T.cfg")
     with open(cfg, "w") as f:
         f.write("SPECIFICATION TSpec\nINVARIANT TraceInvariants\nCHECK_DEADLOCK FALSE\n")
-    r = tlc.run_tlc(os.path.join(SPEC, "RamTrace.tla"), cfg, dt, lib=dt, workers=1, timeout=600)
+    r = tlc.run_tlc(os.path.join(SPEC, "RamTrace.tla"), cfg, dt, lib=dt, workers=1, timeout=1800)
     acc = set()
     for line in r["out"].splitlines():
         if line.startswith('<<"ACCEPT"'):
